@@ -498,6 +498,24 @@ def check_cases(cases, rep, tag="cases"):
     for (case, pio), toks in zip(index, results):
         for what, detail in compare_part(case, pio, toks, rep):
             out.append((case, what, detail))
+    # READ-ORDER LEG (common_cases.late_reads; every second case, every partition): z-scores and p-values
+    # read after every other public read of a second partition are the ones of the fresh partition
+    from harness.props import common_cases as cc
+    for case, io in zip(cases, ios):
+        if "error" in io or int(case.get("k", 0)) % 2 or str(case.get("shape", "")).startswith("large"):
+            # (population-sized tables are left out: some of the OTHER public reads - the scale medians -
+            # take seconds per partition at 1e8 .. 1e10 respondents)
+            continue
+        for pidx, pio in enumerate(io["parts"]):
+            fresh = {n: pio["A"][n] for n in ("zscores", "pvals", "residual_test_stats")}
+            population, late = cc.late_reads({"response": case["response"], "transforms": None,
+                                              "k": 1000 * int(case.get("k", 0)) + pidx},
+                                             list(fresh), fresh, transforms=None, k=pidx)
+            rep.dist("late-reads:partitions")
+            for n, a, b, culprits in late[:1]:
+                out.append((case, "%s depends on what was read before" % n,
+                            {"partition": pidx, "fresh": a, "after_other_reads": b, "population": population,
+                             "single_earlier_reads_that_change_it": culprits}))
     return out, ios, coq_s, len(terms)
 
 
